@@ -476,7 +476,7 @@ PLANS = {
     "C10": dict(proofs=["Proofs.C10"], runs=[("c10", dict(quick=0, thorough=0))],
                 rule="every code point with a non-trivial case class in either source (quick: all below U+0250 and a quarter of the rest) x {i, iu, iv} x {literal, [c], [^c], (c)\\1} x every member of both classes; \\w \\W [\\w] [\\W] \\b for every such code point; non-trivial = c ≠ d equivalent",
                 technique="Lean 4 kernel evaluation over FOLDS / TO_UPPERCASE regenerated from the source vs ICU 78.2 snapshot, lifted to all code points; engine-level sweep of the same relation"),
-    "C01": dict(proofs=["Proofs.C01", "Proofs.Lower", "Proofs.LowerChain", "Proofs.ESTerm", "Proofs.Keystone"], runs=[("engine", dict(quick=30000, thorough=600000), ["--focus", "C01"]), ("lower", dict(quick=10000, thorough=200000))],
+    "C01": dict(proofs=["Proofs.C01", "Proofs.Lower", "Proofs.LowerChain", "Proofs.ESTerm", "Proofs.RoundTrip", "Proofs.Keystone"], custom="c01", runs=[("engine", dict(quick=30000, thorough=600000), ["--focus", "C01"]), ("lower", dict(quick=10000, thorough=200000))],
                 rule=ENGINE_RULE,
                 technique="Lean 4 ES2025 specification (laws proved) as executable oracle: spec-vs-implementation differential on generated ASTs"),
     "C04": dict(proofs=["Proofs.C04", "Proofs.C04Sem", "Proofs.EndToEnd"], runs=[("engine", dict(quick=30000, thorough=1500000), ["--focus", "C04"]),
@@ -562,6 +562,45 @@ def c07_big(binary, tier, stats, violations):
             violations.append({"kind": "impl-vs-spec", "case": "rvharness big %s %d" % (kind, n),
                                "what": "adversarial pattern `%s` x %d: expected %s, got %s (resource limits must surface exactly at the documented bounds)" % (kind, n, want, verdict)})
     stats["samples"] += ["big %s %d => %s" % (k, n, w) for k, n, w in cases[:6]]
+
+
+def c01_print(binary, tier, seed, stats, broken):
+    """Tie of the Lean pattern printer (Spec/Print.lean, the text side of Proofs/RoundTrip) to the real parser:
+    for the ASTs of the `lower` run, the real parser's IR for the LEAN-printed text must equal its IR for the
+    harness-printed text of the same AST (which the `lower` tie equates with toIR of the AST)."""
+    base = os.path.join(BUILD, "runs", "C01", "lower")
+    reqp, impp = os.path.join(base, "req.txt"), os.path.join(base, "impl.txt")
+    if not (os.path.exists(reqp) and os.path.exists(impp)):
+        broken.append({"tie": "print tie: the lower run left no request file", "detail": ""})
+        return
+    pd = os.path.join(BUILD, "runs", "C01", "print")
+    os.makedirs(pd, exist_ok=True)
+    reqs = [l.rstrip("\n") for l in open(reqp)]
+    want = [l.rstrip("\n") for l in open(impp)]
+    with open(os.path.join(pd, "req.txt"), "w") as f:
+        for l in reqs:
+            f.write("print" + l[len("lower"):] + "\n")
+    with open(os.path.join(pd, "impl.txt"), "w") as f:
+        f.write("\n" * len(reqs))
+    rc, err = run_driver(pd)
+    if rc != 0:
+        broken.append({"tie": "Lean driver on print", "detail": err[-1000:]})
+        return
+    texts = [l.rstrip("\n") for l in open(os.path.join(pd, "lean.txt"))]
+    with open(os.path.join(pd, "texts.txt"), "w") as f:
+        for l, t in zip(reqs, texts):
+            f.write("%s %s\n" % (l.split(" ")[1], t))
+    rc, out = run([binary, "irof", "--aux", os.path.join(pd, "texts.txt"), "--out", pd], timeout=3600, mem_gib=24)
+    got = [l.rstrip("\n") for l in open(os.path.join(pd, "irof.txt"))] if os.path.exists(os.path.join(pd, "irof.txt")) else []
+    if rc != 0 or len(got) != len(want):
+        broken.append({"tie": "print tie: the real parser did not answer every printed pattern", "detail": out[-1000:]})
+        return
+    diffs = [{"request": r, "printed": t, "impl": g, "model": w} for r, t, g, w in zip(reqs, texts, got, want) if g != w and t != "bad-request"]
+    stats["dist"]["print-tie-cases"] = len(reqs)
+    stats["dist"]["print-tie-bad-request"] = sum(1 for t in texts if t == "bad-request")
+    stats["requests"] = stats.get("requests", 0) + len(reqs)
+    if diffs:
+        broken.append({"tie": "print tie: real parser on the Lean-printed text vs on the harness-printed text of the same AST", "detail": diffs[:5]})
 
 
 def c15_replay(default_binary, tier, seed, stats, violations, broken):
@@ -792,6 +831,8 @@ def check(pid, tier, seed):
 
     if plan.get("custom") == "c15" and okc:
         c15_replay(binary, tier, seed, stats, violations, broken)
+    if plan.get("custom") == "c01" and okc:
+        c01_print(binary, tier, seed, stats, broken)
     if plan.get("custom") == "c07" and okc:
         c07_big(binary, tier, stats, violations)
 
